@@ -22,6 +22,26 @@ SUBST = {"INTEGER": "0", "REAL": "0.0", "NUMBER": "0", "STRING": "''"}
 EXTRACTORS = ["attrnull", "stepfile", "enums"]
 
 
+def baseline_generated(files):
+    """A run against another tree (VERIF_REPO) works in a private copy of the Lean project whose Generated/ files are only
+    rewritten by extractors that succeed.  Start every run from the tables of /repo HEAD (the ones in /verif/lean), so that
+    an extractor that no longer recognises the changed source leaves a CURRENT table of the unchanged source behind, not a
+    stale one of an earlier run - the model then still builds and the oracle sweep runs."""
+    from vlib import lean as L
+    import shutil
+    if os.path.realpath(L.LEAN_DIR) == os.path.realpath(L.LEAN_SRC):
+        return
+    for f in files:
+        src = os.path.join(L.LEAN_SRC, "StepModel", "Generated", f)
+        if os.path.exists(src):
+            dst = os.path.join(L.GEN_DIR, f)
+            if not os.path.exists(dst) or open(src).read() != open(dst).read():
+                shutil.copyfile(src, dst)
+
+
+GENERATED_FILES = ["AttrNullGen.lean", "StepFileGen.lean", "ThreadingGen.lean", "Enums.lean", "InstMgrGen.lean", "P21RWGen.lean"]
+
+
 # ------------------------------------------------------------------ building
 def build_schema(b, schema, workdir, with_p21read=True):
     os.makedirs(workdir, exist_ok=True)
@@ -485,6 +505,7 @@ def run(ctx):
         "DERIVEd and redeclared attributes are in the model (derived branch) but not generated: not compared",
         "the unset value is written `$` or left empty; fewer values than attributes is a different error class (C03)",
     ]
+    baseline_generated(GENERATED_FILES)
     proof_ok = ctx.lean("StepModel.Props.C15", exes=["m_c15"], extractors=EXTRACTORS)
     if not proof_ok:
         # a theorem no longer checks against the regenerated tables: the driver (which does not depend on the proofs)
